@@ -26,7 +26,7 @@ META = {
             "implementation received are compared with what was sent (NaN/signed-zero aware, type strict); TLC judges every "
             "observation with TypeGrammar!Conforms.",
     "note": "What TLA+ contributes is exhaustiveness over shapes x value classes x signatures and the accept/reject oracle; "
-            "equality of concrete values is sampled inside each class (boundaries exact, rest seeded). Transports: pipe and "
+            "equality of concrete values is sampled inside each class (boundaries exact; bulk members drawn by hypothesis strategies seeded from VERIF_SEED). Transports: pipe and "
             "in-process HTTP (falcon test client); subprocess/unix/tcp transports share the pipe code path and are not run.",
 }
 
@@ -84,14 +84,16 @@ class PipeLink:
         self.proto, self.impl = proto, impl
         self.rebuilds = -1
         self.hangs = 0
+        from vgi_rpc.rpc import RpcServer
+
+        self.server = RpcServer(proto, impl)     # one server object; every (re)connection is a new serve() loop on it
         self._open()
 
     def _open(self) -> None:
-        from vgi_rpc.rpc import RpcConnection, RpcServer, make_pipe_pair
+        from vgi_rpc.rpc import RpcConnection, make_pipe_pair
 
         self.rebuilds += 1
         self.ct, self.st = make_pipe_pair()
-        self.server = RpcServer(self.proto, self.impl)
         self.thread = threading.Thread(target=self._serve, daemon=True)
         self.thread.start()
         self.conn = RpcConnection(self.proto, self.ct)
@@ -207,6 +209,7 @@ def run(ctx: Ctx) -> None:
     warnings.filterwarnings("ignore")
     quick = ctx.quick
     rng = ctx.rng
+    T.SEED = ctx.seed
     ctx.rule = ("case = (annotation term, shape, leaf value class, signature, concrete value, transport); terms/classes/signatures "
                 "enumerated by TLC from TypeGrammar!Cases; non-trivial = distinct (method signature, call form, repr of the concrete "
                 "argument, transport) on which a real call ran")
@@ -222,15 +225,13 @@ def run(ctx: Ctx) -> None:
                "generated (observed by hand: such calls raise ArrowTypeError on the client, never a changed value); below a "
                "dataclass the dataclass grammar applies (C03's known set/map conversion defect is matched by the same family key)")
     scalars = [x for x in ALL_LEAVES if x not in ("schema", "batch")]
-    runs = [("depth1", {"Mode": "rpc", "MaxDepth": 1, "Ctors": sset(ALL_CTORS), "Leaves": sset(ALL_LEAVES),
-                        "SigLeaves": sset(["int", "u64", "f32", "str", "enum", "dec"] if quick else scalars[:-2]), "Variants": sset(["plain"])}),
-            ("depth2", {"Mode": "rpc", "MaxDepth": 2, "Ctors": sset(ALL_CTORS),
-                        "Leaves": sset(["int", "i32", "u64", "float", "f32", "str", "bytes", "bool", "enum", "dec", "ts_us", "schema"]
-                                       if quick else ALL_LEAVES[:-2]),
-                        "SigLeaves": sset([]), "Variants": sset(["plain"])})]
+    deep = ["int", "u64", "f32", "str", "bytes", "enum", "dec", "ts_us", "schema"] if quick else ALL_LEAVES[:-2]
+    runs = [("depth2", {"Mode": "rpc", "MaxDepth": 2, "Ctors": sset(ALL_CTORS), "Leaves": sset(ALL_LEAVES), "DeepLeaves": sset(deep),
+                        "SigLeaves": sset(["int", "f32", "str", "enum"] if quick else scalars[:-2]), "Variants": sset(["plain"])})]
     if not quick:
+        d3 = ["int", "enum", "str", "f32", "dec"]
         runs.append(("depth3", {"Mode": "rpc", "MaxDepth": 3, "Ctors": sset(["opt", "list", "set", "map_str", "dc"]),
-                                "Leaves": sset(["int", "enum", "str", "f32", "dec"]), "SigLeaves": sset([]), "Variants": sset(["plain"])}))
+                                "Leaves": sset(d3), "DeepLeaves": sset(d3), "SigLeaves": sset([]), "Variants": sset(["plain"])}))
     seen = set()
     plan = []   # (run name, consts, case, exp)
     for name, consts in runs:
@@ -242,7 +243,7 @@ def run(ctx: Ctx) -> None:
                 seen.add(key)
                 plan.append((name, consts, c, cj["exp"]))
     ctx.exhaustive = True
-    nval = 2 if quick else 4
+    nval = 2 if quick else 3
 
     # ---- concretise: values + methods
     svc = Service()
@@ -277,6 +278,8 @@ def run(ctx: Ctx) -> None:
             forms = [("explicit", {"x": v, **({"y": yv} if second != "-" else {})}, (v, yv if second != "-" else None))]
             if dx:
                 forms.append(("x_omitted", {**({"y": yv} if second != "-" else {})}, (v, yv if second != "-" else None)))
+            if dx and term[0] == "opt" and v is not None and exp == "roundtrip":     # an explicit None must not be replaced by a non-None default
+                forms.append(("x_explicit_none", {"x": None, **({"y": yv} if second != "-" else {})}, (None, yv if second != "-" else None)))
             if dy:
                 forms.append(("y_omitted", {"x": v}, (v, yd)))
             if dx and dy:
@@ -299,6 +302,11 @@ def run(ctx: Ctx) -> None:
             for tname, link in (("pipe", pipe), ("http", http)):
                 svc.received.pop(mname, None)
                 status, res = link.call(mname, dict(kwargs))
+                if status == "hang":
+                    # confirm on the fresh connection: a first hang can be the tail of an earlier call's undetected
+                    # serve-loop death; only a call that hangs again on a new connection counts
+                    svc.received.pop(mname, None)
+                    status, res = link.call(mname, dict(kwargs))
                 nearest = False
                 detail = {"transport": tname, "form": form, "method": mname, "sent": T.show(kwargs), "expected": exp}
                 if status == "ok":
